@@ -22,6 +22,8 @@ def owners(item):
         return {"C02"} | ({"C04"} if c == "symtab" and form == "equ" else set())
     if c == "decodes":
         return {"C12", "C01"}
+    if c == "names":
+        return {"C12"}
     if c in ("outcome", "diagnames"):
         return {"C13"}
     if c in ("enc", "accepted"):
